@@ -71,7 +71,7 @@ def standin_mstep_monitor(tier, seed):
     return dict(evaluations=evals, distinct_nontrivial=len(distinct),
                 rule="one evaluation = one parameter after one real maximisation step compared with its independently computed "
                      "closed form; distinct = (model kind, parameter)",
-                samples=samples[:3], violations=violations[:3],
+                samples=samples[:3], violations=violations[:60],
                 bound=dict(space="model kinds x iterations of a seeded fit", iterations=n_iter, exhaustive=False, seed=seed))
 
 
